@@ -158,13 +158,27 @@ class C07(PropCheck):
                     if float(used[r_i]) not in adm:
                         problems.append('round %d threshold %r is not the weighted %.3g-quantile %r of the previous discrepancies'
                                         % (r_i, float(used[r_i]), alphas[r_i], sorted(adm)))
-            V1, V2 = np.sum(w), np.sum(w ** 2)
-            xbar = (w[:, None] * P).sum(0) / V1
-            s2 = (w[:, None] * (P - xbar) ** 2).sum(0) / (V1 - V2 / V1)
+            # exact rational value of the reliability-weights formula on the stored floats; the binary64
+            # evaluation is entitled to a relative error of a few ulp times the conditioning V1 / (V1 - V2/V1)
+            # of the denominator (two particles with weights (1-e, e) lose log10(1/e) digits whatever the
+            # order of the floating-point operations)
+            from fractions import Fraction as _F
+            wq = [_F(float(x)) for x in w]
+            V1q, V2q = sum(wq), sum(x * x for x in wq)
+            denq = V1q - V2q / V1q if V1q != 0 else _F(0)
+            if denq != 0:
+                Pq = [[_F(float(x)) for x in row] for row in np.asarray(P, dtype=float).reshape(len(w), -1)]
+                dimq = len(Pq[0])
+                xbarq = [sum(wq[i] * Pq[i][k] for i in range(len(wq))) / V1q for k in range(dimq)]
+                s2 = np.array([float(sum(wq[i] * (Pq[i][k] - xbarq[k]) ** 2 for i in range(len(wq))) / denq) for k in range(dimq)])
+                condq = float(V1q / denq)
+            else:
+                s2 = np.full(np.asarray(P).reshape(len(w), -1).shape[1], np.nan)
+                condq = 1.0
             cov_expect = 2 * np.diag(s2)
             cov = np.asarray(p.cov, dtype=float)
             if np.all(np.isfinite(cov_expect)):
-                if not np.allclose(cov, cov_expect, rtol=1e-9, atol=1e-300):
+                if not np.allclose(cov, cov_expect, rtol=1e-9 + 64 * 2.3e-16 * condq, atol=1e-300):
                     problems.append('population %d cov %r is not twice the weighted sample variance %r' % (r_i, cov.tolist(), cov_expect.tolist()))
             prev = (P, w, cov)
             prev_discs = np.asarray(p.outputs['d'], dtype=float)
